@@ -104,6 +104,7 @@ type evidence struct {
 }
 
 var propExplain = map[string]string{}
+var propTechnique = map[string]string{}
 var propAssume = map[string][]string{}
 
 // Finish prints the verdict, writes evidence and returns the exit code.
